@@ -242,6 +242,19 @@ def take_params(tok, a):
     return 0, min(int(tok), a)
 
 
+def take_plan(tok, a):
+    """(offsets of the chunk handed to the caller, in order; how far the chunk iterator has advanced afterwards) for a
+    consumption token; `<k>+nth:<j>`: `k` calls of `next()`, then one `nth(j)`"""
+    if "+nth:" in tok:
+        k, j = tok.split("+nth:")
+        kk = min(int(k), a)
+        j = int(j)
+        offs = list(range(kk)) + ([kk + j] if kk + j < a else [])
+        return offs, min(kk + j + 1, a)
+    sk, j = take_params(tok, a)
+    return list(range(sk, j)), j
+
+
 def rand_take(rng, n):
     r = rng.random()
     if r < 0.15:
